@@ -135,9 +135,15 @@ func c13Run(path string) string {
 	return sb.String()
 }
 
-func TestVerifC13Rewrites(t *testing.T) {
-	rep := vNewReport("E2 history over Config.GlobalRewrites (-X) through internal/build.Do: module main+lib+top (top reads lib.V), steps change the rewrite table (set, change to a same-length value, add a second variable, set an uninitialised variable, rewrite the dependent package only, remove everything = old archives valid again, repeat an earlier table); after every step output(build with the persistent cache) == output(build with LLGO_BUILD_CACHE=0) == expected from the table")
+// One test, one report: the rig reads a single VERIF_STATS file.
+func TestVerifC13(t *testing.T) {
+	rep := vNewReport("E2 history over Config.GlobalRewrites (-X) through internal/build.Do: module main+lib+top (top reads lib.V), steps change the rewrite table (set, change to a same-length value, add a second variable, set an uninitialised variable, rewrite the dependent package only, remove everything = old archives valid again, repeat an earlier table); after every step output(build with the persistent cache) == output(build with LLGO_BUILD_CACHE=0) == expected from the table | manifest sensitivity (no build executed): env+common sections from collectEnvInputs/collectCommonInputs must differ for every pair of -O levels; ABI modes, tag sets and LLGO_* variables recorded")
 	defer rep.Write()
+	c13ManifestSensitivity(t, rep)
+	c13Rewrites(t, rep)
+}
+
+func c13Rewrites(t *testing.T, rep *vReport) {
 	work := os.Getenv("VERIF_WORK")
 	if work == "" {
 		work = t.TempDir()
@@ -224,9 +230,7 @@ func c13Common(t *testing.T, level optlevel.Level, abi cabi.Mode, tags string) s
 	return m.Build()
 }
 
-func TestVerifC13ManifestSensitivity(t *testing.T) {
-	rep := vNewReport("manifest sensitivity (no build executed): env+common sections from collectEnvInputs/collectCommonInputs must differ for every pair of -O levels; ABI modes, tag sets and LLGO_* variables recorded")
-	defer rep.Write()
+func c13ManifestSensitivity(t *testing.T, rep *vReport) {
 	levels := []optlevel.Level{optlevel.O0, optlevel.O1, optlevel.O2, optlevel.O3, optlevel.Os, optlevel.Oz}
 	seen := map[string]optlevel.Level{}
 	for _, l := range levels {
